@@ -20,9 +20,15 @@ LENGTH_BIAS = [0, 1, 2, 9, 10, 11, 19, 20, 21, 29, 30, 31, 39, 40, 41]
 # one set then spell instants in different offsets, and what must count is
 # the instant, not the wall clock.
 AWARE_OFFSETS = None
+# When set (C10, some runs): every datetime carries this ONE zone object (a
+# zone with daylight saving): comparisons inside one zone go by the wall
+# clock, also in the repeated hour.
+AWARE_ZONE = None
 
 
 def _aw(d, key=0):
+    if AWARE_ZONE is not None and d.tzinfo is None:
+        return d.replace(tzinfo=AWARE_ZONE)
     if AWARE_OFFSETS is None or d.tzinfo is not None:
         return d
     off = AWARE_OFFSETS[key % len(AWARE_OFFSETS)]
